@@ -114,6 +114,8 @@ def txt(n, depth=0):
         if len(args) == 2:
             return "%s %s %s" % (txt(args[0], d), op, txt(args[1], d))
         if len(args) == 1:
+            if op == "->":
+                return txt(args[0], d)      # smart pointer: the MemberExpr adds the arrow
             return "%s%s" % (op, txt(args[0], d))
         return "operator%s(%s)" % (op, ", ".join(txt(x, d) for x in args))
     if k == "CallExpr":
